@@ -1,6 +1,6 @@
 (* Proofs/TEvalProofs.v — lemmas about Model/TEval.v (C01, C02) *)
 From Coq Require Import String Ascii ZArith Bool List Lia ZifyBool.
-From Glom Require Import Base.PyVal Base.PySlice Generated.TOpTable Generated.ExcTable Model.TEval Model.Exc.
+From Glom Require Import Base.PyVal Base.PySlice Generated.TOpTable Generated.ExcTable Model.TEval Model.Exc Spec.PathSpec.
 Import ListNotations.
 Local Open Scope string_scope.
 Local Open Scope list_scope.
@@ -78,10 +78,6 @@ Proof.
 Qed.
 
 (* ---------- Path(...) of plain segments is a sequence of 'P' steps ---------- *)
-Definition part_steps (p : part) : list (string * arg) :=
-  match p with PVal v => [("P", ALit v)] | PT steps => steps end.
-Definition parts_steps (ps : list part) : list (string * arg) := concat (map part_steps ps).
-
 Lemma flatten_app a b : flatten_steps (a ++ b) = flatten_steps a ++ flatten_steps b.
 Proof. induction a as [|[c x] r IH]; cbn [flatten_steps app]; [reflexivity|rewrite IH; reflexivity]. Qed.
 
@@ -99,19 +95,6 @@ Qed.
 
 Lemma path_of_parts_flat ps : path_of_parts ps = flat RT (parts_steps ps).
 Proof. unfold path_of_parts. change [CRoot RT] with (flat RT []). apply path_init_flat. Qed.
-
-(* ---------- Spec layer for C01: left fold of the per-type access with a running index ---------- *)
-Definition access1 (cur seg : val) : res val := get_handler_get cur (EVal seg).
-
-Fixpoint access (segs : list val) (k : nat) (cur : val) : res val :=
-  match segs with
-  | [] => Ok cur
-  | s :: r => match access1 cur (rebuild s) with
-              | Ok v => access r (S k) v
-              | Raise e => Raise (pae (ecls e) k)
-              | Unmodelled t => Unmodelled t
-              | OutOfFuel => OutOfFuel end
-  end.
 
 Lemma part_idx_p_spec k : zidx (part_idx_p (Z.of_nat (1 + 2 * k))) = k.
 Proof. unfold zidx, part_idx_p. lia. Qed.
@@ -146,8 +129,6 @@ Lemma path_refines_access_lemma fuel target vs :
 Proof. rewrite path_of_parts_flat, t_eval_replay, parts_steps_vals. apply replay_P. Qed.
 
 (* text paths: split on '.', every segment a 'P' step (no wildcard segment) *)
-Definition no_star (segs : list string) : Prop := forall s, In s segs -> s <> "*" /\ s <> "**".
-
 Lemma seg_parts_no_star b segs : no_star segs -> map (seg_part b) segs = map PVal (map VStr segs).
 Proof.
   induction segs as [|s r IH]; intro H; [reflexivity|]. cbn [map]. rewrite IH by (intros x Hx; apply H; right; exact Hx).
